@@ -111,6 +111,7 @@ specs["C05"] = {"runs": [run(CMD + "balance:Harness_pure_function", Q, {"unit": 
     [run(CMD + "balance:Harness_pure_function", T, {"unit": u, "E": 4, "unitamounts": 1, "bookshapes": 2}, "fp", "all", cover=["ran-twice"], note=units[u] + ": IEEE-754 encoding") for u in fpunits] + [
     run("resolver:Harness_C05_resolve_twice", QT, {"K": 3, "M": 1, "L": 1, "Nmax": 4}, "fp", "all", cover=["ran-twice"]),
     run("cmd/hranoprovod-cli:Harness_app_sequence", QT, {}, "fp", cover=["ran-twice"], note="whole application: a command gives the same output when run first and when run again after another command with other flags (14 variants, all ordered pairs): no state kept between runs"),
+    run("cmd/hranoprovod-cli:Harness_app_stats_twice", QT, {}, "fp", cover=["ran-twice"], note="`stats` twice on a 120-day log and a book with a malformed line: same status and output under both explored schedules of any goroutine the command starts (at once / when waited for)"),
     run("cmd/hranoprovod-cli:Harness_app_keywords", QT, {}, cover=["ran"], note="with --today given, the keywords today, yesterday, last7, last30 select by that date and not by the wall clock (the output is a function of the inputs)"),
     run("cmd/hranoprovod-cli:Harness_app_twice", QT, {}, "real", "repo", cover=["ran-twice"], note="whole application: 13 commands twice on the same files, every visiting order of the maps the repository's code ranges over (maporder=repo), names differing only in letter case, equal quantities"),
     run(CMD + "balance:Harness_pure_function", QT, {"unit": 3, "E": 2, "casepair": 1}, "real", "all", cover=["ran-twice"], note=units[3] + ": names that differ only in letter case"),
